@@ -11,7 +11,7 @@ from scrapli.exceptions import (
     ScrapliUnsupportedPlatform,
 )
 from scrapli.transport.base import BasePluginTransportArgs, BaseTransportArgs, Transport
-from scrapli.transport.plugins.system.ptyprocess import PtyProcess
+from scrapli.transport.plugins.system.ptyprocess import PtyProcess, PtyProcessError
 
 
 @dataclass()
@@ -158,7 +158,12 @@ class SystemTransport(Transport):
         self._pre_open_closing_log(closing=True)
 
         if self.session:
-            self.session.close()
+            try:
+                self.session.close()
+            except PtyProcessError as exc:
+                # the state of the ssh process could not be determined (i.e. it has already been
+                # reaped) or it could not be terminated; the pty itself is closed at this point
+                self.logger.warning(f"encountered error closing the ssh process: {exc}")
 
         self.session = None
 
@@ -167,8 +172,12 @@ class SystemTransport(Transport):
     def isalive(self) -> bool:
         if not self.session:
             return False
-        if self.session.isalive() and not self.session.eof():
-            return True
+        try:
+            if self.session.isalive() and not self.session.eof():
+                return True
+        except PtyProcessError:
+            # the state of the ssh process cannot be determined (i.e. it has already been reaped)
+            return False
         return False
 
     @timeout_wrapper
